@@ -6,6 +6,7 @@ import (
 	"os"
 	"sort"
 	"strings"
+	"time"
 
 	"github.com/cedar-policy/cedar-go/x/exp/schema"
 	sast "github.com/cedar-policy/cedar-go/x/exp/schema/ast"
@@ -94,6 +95,7 @@ type schemaFeatures struct {
 	badIdent       bool            // a declared name / reference / annotation key that is not an identifier (path)
 	reservedCommon bool            // common type named like a reserved type name
 	typeNamedSet   bool            // a type reference printed as exactly `Set`
+	setQualified   bool            // a type reference (type position) whose first path component is `Set`: `Set::A`
 	emptyEnum      bool
 	appliesNoPR    bool // appliesTo without principal or resource types
 	unknownExt     bool
@@ -144,12 +146,18 @@ func featuresOf(s *sast.Schema) schemaFeatures {
 			if string(t) == "Set" {
 				f.typeNamedSet = true
 			}
+			if strings.HasPrefix(string(t), "Set::") {
+				f.setQualified = true
+			}
 		case sast.TypeRef:
 			if !validPath(string(t), true) {
 				f.badIdent = true
 			}
 			if string(t) == "Set" {
 				f.typeNamedSet = true
+			}
+			if strings.HasPrefix(string(t), "Set::") {
+				f.setQualified = true
 			}
 		}
 	}
@@ -279,6 +287,8 @@ func classifyC17(leg, kind string, f schemaFeatures) string {
 		return "reserved-common-type-name-renders-unparseable"
 	case textual && kind == "unparseable" && f.typeNamedSet:
 		return "type-named-Set-renders-unparseable"
+	case textual && kind == "unparseable" && f.setQualified:
+		return "type-reference-into-namespace-Set-renders-unparseable"
 	case textual && kind == "unparseable" && f.appliesNoPR:
 		return "appliesTo-without-principal-or-resource-renders-unparseable"
 	case textual && kind == "unparseable" && f.cedarNamespace:
@@ -494,7 +504,7 @@ var c17BadTexts = []string{
 }
 
 func runC17(c *vh.Ctx) {
-	c.Res.Rule = "schema ASTs: ALL entity/common-type/action graphs on <=3 names in the primary reference style (the namespaced / qualified styles: all graphs on <=2 names and every 4th on 3 in the quick tier, all in thorough), hand-written specials (undefined refs, RFC-70 shadowing, resolution order, names like primitives, __cedar:: prefixes), random schemas in four profiles (JSON-shaped nodes, text-shaped nodes, hostile names, hostile but grammatical names); each through text->AST->text, JSON->AST->JSON, text->JSON->text, JSON->text->JSON with second-rendering byte identity and equality of the canonical dump of Resolve(); plus model/Go correspondence of Resolve (accept/reject + dump), the JSON encoder tree and the Cedar text printer. distinct = distinct schema encodings; non-trivial = schema with at least one declaration"
+	c.Res.Rule = "schema ASTs: ALL entity/common-type/action graphs on <=3 names in the primary reference style (the namespaced / qualified styles: all graphs on <=2 names and every 4th on 3 in the quick tier, all in thorough), hand-written specials (undefined refs, RFC-70 shadowing, resolution order, names like primitives, __cedar:: prefixes), random schemas in four profiles (JSON-shaped nodes, text-shaped nodes, hostile names, hostile but grammatical names; in every profile namespace components, entity / enum / common-type / attribute / action names and annotation keys are drawn with probability 0.1-0.15 from a table of identifiers NEAR reserved words: `__cedar` as proper prefix / suffix / infix, keywords with prefixes / suffixes / in another case, suffixed type names, `_`, `__`), one minimal schema per (position, identifier) for 13 positions x (that table, the contextual schema keywords, the reserved words themselves) and the same schema as hand-written Cedar text (the parser must accept it iff the identifier is legal there by the grammar - reserved words are reserved as whole words only - and build the same tree); each through text->AST->text, JSON->AST->JSON, text->JSON->text, JSON->text->JSON with second-rendering byte identity and equality of the canonical dump of Resolve(); plus model/Go correspondence of Resolve (accept/reject + dump), the JSON encoder tree and the Cedar text printer. distinct = distinct schema encodings; non-trivial = schema with at least one declaration"
 	var cases []vh.SchemaCase
 	for _, sc := range vh.SpecialSchemas() {
 		if sc.Tag == "special-colon-name-cycle" {
@@ -561,12 +571,21 @@ func runC17(c *vh.Ctx) {
 		c.Dist("bad-text:" + impl[:2])
 		b.Add("schema-parse", map[string]any{"text": vh.Hex(txt)}, impl, fmt.Sprintf("bad-text-%d", i))
 	}
-	for _, cs := range cases {
+	// identifiers near reserved words (vh/gen_c17b.go): one minimal schema and one hand-written text per (position, identifier)
+	nOther := len(cases)
+	cases = append(cases, c17NearReservedPass(c, b)...)
+	var tNear time.Duration
+	for i, cs := range cases {
 		feat := featuresOf(cs.S)
 		c.Dist("gen:" + strings.SplitN(cs.Tag, "-", 3)[0] + "-" + strings.SplitN(cs.Tag+"-", "-", 3)[1])
+		t0 := time.Now()
 		checkC17(c, cs.Tag, cs.S, feat)
 		addSchemaCorrespondence(c, b, cs, true)
+		if i >= nOther {
+			tNear += time.Since(t0)
+		}
 	}
+	c.Res.Notes = append(c.Res.Notes, fmt.Sprintf("near-reserved pass: %d (position, identifier) pairs, %.1fs in the Go codecs (driver lines excluded)", len(cases)-nOther, tNear.Seconds()))
 	c.Sample(map[string]any{"schema": "entity Long; entity X { a: __cedar::Long-as-primitive-node };", "legs": "text, json, t2j, j2t"})
 	finishSchemaCorrespondence(c, b)
 	keys := make([]string, 0)
